@@ -394,3 +394,21 @@ func (c *Ctx) pathTo(root, target *ssa.Function) []string {
 	}
 	return path
 }
+
+// reachableWithout: functions reachable from root by synchronous calls when
+// the function skip (and everything only it leads to) is left out.
+func (c *Ctx) reachableWithout(root, skip *ssa.Function) map[*ssa.Function]bool {
+	g := c.graph()
+	seen := map[*ssa.Function]bool{}
+	stack := []*ssa.Function{root}
+	for len(stack) > 0 {
+		f := stack[len(stack)-1]
+		stack = stack[:len(stack)-1]
+		if seen[f] || f == skip {
+			continue
+		}
+		seen[f] = true
+		stack = append(stack, g.out[f]...)
+	}
+	return seen
+}
